@@ -181,6 +181,33 @@ def type_only_arms(fx, er, skip_front=True):
     return out
 
 
+# Modifier flags that TypeScript erases (handbook: optional members, readonly, accessibility and abstract generate no JavaScript).
+# FunctionParam.accessibility / readonly are NOT here: on constructor parameters they declare parameter properties (C04).
+STATIC_FLAGS = {
+    ("ast::FunctionParam", "optional"),
+    ("ast::ClassDeclaration", "abstract_"),
+    ("ast::ClassMethod", "accessibility"),
+    ("ast::ClassProperty", "readonly"),
+    ("ast::ClassProperty", "optional"),
+    ("ast::ClassProperty", "accessibility"),
+    ("ast::ClassConstructor", "accessibility"),
+}
+
+
+def static_flag_reads(fx, skip_front=True):
+    out = []
+    for f in fx.fns.values():
+        if f.derived or (skip_front and front_end(f)):
+            continue
+        for bi, kind, pl, sp in M.all_places(f):
+            if kind not in ("r", "b"):
+                continue
+            for (adt, var, fld) in F.place_fields(pl):
+                if (adt, fld) in STATIC_FLAGS:
+                    out.append((f, adt, fld, sp))
+    return out
+
+
 def run(tier):
     ck = Check("C03", tier, "computed erasable-ADT set (type-graph reachability) + who-may-read rule over every MIR place projection + match-arm emptiness",
                ["that the grammar as a whole yields the same non-type AST with and without annotations (speculative parsing is value dependent); "
@@ -205,6 +232,22 @@ def run(tier):
         ck.finding("R1.no-type-reads", "R1.no-type-reads/%s/%s.%s" % (f.parent, adt, fname), F.short_span(sp),
                    "`%s` reads %s: type syntax can influence generated code or execution" % (f.parent, hit))
 
+    # R1b static-only modifier flags on value-carrying nodes (zero expected)
+    ck.rule("R1b.no-static-flag-reads", "no function outside parser/ast/derives reads a purely static modifier flag (optional / readonly / accessibility / "
+                                        "abstract on class members, optional on parameters)", floor=300)
+    nflag = 0
+    for f, adt, fld, sp in static_flag_reads(fx):
+        nflag += 1
+        ck.finding("R1b.no-static-flag-reads", "R1b.no-static-flag-reads/%s/%s.%s" % (f.parent, adt.split("::")[-1], fld), F.short_span(sp),
+                   "`%s` reads `%s.%s`, a modifier that TypeScript erases: `x?: T;`, `readonly x`, `private x` then generate other code than `x`"
+                   % (f.parent, adt.split("::")[-1], fld))
+    for f in fx.fns.values():
+        if not f.derived and not front_end(f):
+            ck.instance("R1b.no-static-flag-reads", f.path, None, nontrivial=False)
+    present = {(a, fl["name"]) for a, d in fx.adts.items() for v in d["variants"] for fl in v["fields"]}
+    missing = [k for k in STATIC_FLAGS if k not in present]
+    ck.anchor(len(missing) <= 2, "static-only modifier fields of the AST (%d of %d present)" % (len(STATIC_FLAGS) - len(missing), len(STATIC_FLAGS)))
+
     ck.rule("R2.type-only-arms", "match arms selecting a type-only variant (type alias / interface) outside the front end are empty", floor=2)
     for f, enum, var, calls, shared_ok, sp in type_only_arms(fx, er):
         ok = not calls
@@ -221,6 +264,8 @@ def run(tier):
     carms = [a for a in type_only_arms(ctl, cer, skip_front=False) if a[3] and a[0].path.startswith("backend::")]
     if not creads:
         ck.closed_fail.append("R1 positive control: annotation read in the fixture back end not reported")
+    if not [r for r in static_flag_reads(ctl, skip_front=False) if r[0].path.startswith("backend::")]:
+        ck.closed_fail.append("R1b positive control: read of ClassProperty.optional in the fixture back end not reported")
     if not carms:
         ck.closed_fail.append("R2 positive control: non-empty type-only arm in the fixture not reported")
     ck.note("positive control: %d type reads and %d non-empty type-only arms reported in the fixture crate" % (len(creads), len(carms)))
